@@ -33,6 +33,14 @@ ASSUMPTIONS = ['positional vs keyword passing of the same parameter is not judge
 NEAR = [1, True, 1.0, '1', 0, False, 0.0, -0.0, '', None, 'None', (1,), [1], {}, [], (), 'a', b'a', 'A', {'a': 1}, {'a': True}, {'a': 1, 'b': 2},
         [1, [2]], [[1], 2], 'a"', "a'", ' args=', ', kwargs=', [1, 2], [2, 1], {1, 2}, {'x', 'y', 'zz'}, {('a', 1), ('b', 2)}, Obj(a=1), Obj2(a=1),
         Obj(a=1, b=2), Obj(a=[1]), 10 ** 20, -1, 'é', 'é', [None], [[]], {'k': {}}, {'k': []}, (1, 2), ((1,), 2), b'', b'\x00']
+def deep(n, leaf):
+    v = leaf
+    for i in range(n):
+        v = {'d': v} if i % 2 else [v]
+    return v
+
+
+NEAR += [deep(40, 1), deep(40, 2), deep(40, {'a': 1, 'b': 2}), deep(33, Obj(a=1)), deep(33, Obj(a=2)), deep(60, 'x'), deep(60, 'y')]
 ALIASES = [('x', 'x args='), ('in.a', 'in.a.b'), ('q', 'q '), ('in.{p}', 'in.'), ('a, kwargs=[]', 'a'), ('é', 'e'), ('svc', 'svc#1')]
 
 
